@@ -125,7 +125,7 @@ def p_identity(eng, st, name, args, site, depth, call):
             m = re.match(r"^(?:std|core)::option::Option<(.+)>$", dst)
             if m and m.group(1) == src:
                 return one(st, SOME(eng.val(st, a)))
-        impl = eng.workspace_from(st, a, call)
+        impl = eng.workspace_from(st, a, call, name)
         if impl is not None and depth < eng.max_depth and impl.path not in st.stack:
             return eng.run_body(st, impl, [eng.val(st, a)], depth + 1, site)
     if name in ("std::option::Option::as_ref", "std::option::Option::as_mut", "std::result::Result::as_ref",
@@ -462,6 +462,41 @@ def p_replace_opt(eng, st, name, args, site, depth, call):
     if a[0] == "ref":
         eng.write_loc(st, a[1], a[2], SOME(new))
     return one(st, old if name.endswith("replace") else new)
+
+
+@prim("std::option::Option::xor")
+def p_xor_opt(eng, st, name, args, site, depth, call):
+    # a.xor(b): Some exactly when one of the two is
+    a, b = eng.val(st, args[0]), eng.val(st, args[1])
+    out = []
+    for s1, n1, p1 in eng.force_enum(st, a, OPTION, site):
+        for s2, n2, p2 in eng.force_enum(s1, b, OPTION, site):
+            if n1 == "Some" and n2 == "None":
+                out.append((s2, SOME(p1[0])))
+            elif n1 == "None" and n2 == "Some":
+                out.append((s2, SOME(p2[0])))
+            else:
+                out.append((s2, NONE))
+    return out
+
+
+@prim_re(r"(^|[ <])std::iter::Iterator(>|<.*>)?::take_while$")
+def p_take_while(eng, st, name, args, site, depth, call):
+    # a predicate that never looks at the element (`take_while(|_| flag)`) lets everything or nothing through
+    clos = args[1]
+    craw = clos
+    n_ = 0
+    while isinstance(craw, tuple) and craw and craw[0] == "ref" and n_ < 8:
+        craw = eng.read_loc(st, craw[1], craw[2])
+        n_ += 1
+    b_ = eng.by_dp.get(craw[1]) if isinstance(craw, tuple) and craw and craw[0] == "closure" else None
+    if b_ is not None and b_.argc >= 2 and not _local_used(b_, 2) and not eng.body_has_effects(craw[1]):
+        out = []
+        for s2, r in eng.call_value(st, clos, [("unknown", "unused-element")], site, depth):
+            for s3, v in eng.force_bool(s2, r, site):
+                out.append((s3, eng.val(s3, args[0]) if v else ("list", ())))
+        return out
+    return opaque_call(eng, st, name, args, site, call)
 
 
 @prim("std::mem::swap")
@@ -1461,11 +1496,6 @@ def p_and(eng, st, name, args, site, depth, call):
         else:
             out.append((s, NONE if adt == OPTION else ERR(p[0])))
     return out
-
-
-@prim("std::option::Option::xor")
-def p_xor(eng, st, name, args, site, depth, call):
-    return opaque_call(eng, st, name, args, site, call)
 
 
 @prim("std::option::Option::is_some_or", "std::option::Option::then_some", "core::bool::<impl bool>::then_some")
